@@ -4,16 +4,15 @@ import re
 
 from tools import dfir, vlib
 
-FINDING_KEY = "multiset_delta/push-placement/does-not-compile"
 
 
 class C22(dfir.DfirSpec):
     tag = "C22"
     props_vo = "theories/Props/C22.vo"
-    theorems = ["C22_perturbation_operators", "C22_identity_insert", "C22_pull_push", "C22_realisation_is_model"]
+    theorems = ["C22_perturbation_operators", "C22_identity_insert", "C22_pull_push", "C22_realisation_is_model", "C22_partition_shape"]
     modes = ("ticks", "avail")
     level = "other"
-    explanation = 'Not category proof: theorem (ii) of the design (handoff split / identity insertion preserve run_tick on the partitioned program, i.e. interp_partitioned = denote_flat) is not proved; compile/fail agreement (iii) is only probed. Proved: (i) pull realisation = push realisation for fold, persist, fold_keyed, sort_by_key (C22_pull_push, models in Dfir/ModelRealise.v, tied to the list-level operator model by C22_realisation_is_model); the single-closure operators (map, filter, filter_map, flat_map, inspect, unique, enumerate, multiset_delta, scan) hand one closure to the pull or the push combinator, whose agreement is C11/C12; plus C22_perturbation_operators, C22_identity_insert.'
+    explanation = "Not category proof: that inserting identity / tee+null / union+null operators into the flat graph preserves its denotation is proved only at the operator level (C22_perturbation_operators, C22_identity_insert), not as a rewrite of whole flat graphs; compile/fail agreement (iii) is only probed. Proved: (i) pull realisation = push realisation for fold, persist, fold_keyed, sort_by_key (C22_pull_push, C22_realisation_is_model; the single-closure operators hand one closure to the pull or push combinator, C11/C12); (ii) subgraph shape: any two well-formed partitions of the same flat graph compute the same outputs, states and tick counts over every history (C22_partition_shape, from the transparency theorem of C23), with well-formedness checked executably on every variant's real partition."
     assumptions = [
         "the operator models do not distinguish the pull and push realisations of a write_fn; equality of the two "
         "realisations and of different partitions is tested (variant against variant, and each variant against the "
@@ -99,21 +98,15 @@ class C22(dfir.DfirSpec):
 def compile_probes(ctx):
     """variants of compiling programs that rustc rejects: a compile/fail disagreement between
     placements is a violation of the property unless it is a recorded finding"""
-    known = vlib.load_known(ctx.prop)
-    for (name, variant), binname in sorted(dfir.C22_NOT_COMPILING.items()):
+    for (name, variant), binname in sorted(dfir.C22_PROBES.items()):
         cdir = os.path.join(vlib.ROOT, "harness", "h_dfir")
         rc, out = vlib.run(["cargo", "build", "--offline", "--features", "probe", "--bin", binname],
                            cwd=cdir, env=vlib.cargo_env("dfir"), timeout=1500)
         if rc == 0:
-            ctx.log("probe %s compiles now (the recorded finding no longer reproduces)" % binname)
+            ctx.log("probe %s compiles" % binname)
             ctx.notes.append("probe %s compiles" % binname)
             continue
-        inference = re.search(r"error\[E0282\]", out) is not None and binname in out
-        key = FINDING_KEY if (name == "multiset_delta" and inference) else None
-        hit = [t for k, t in known if k == key]
-        if hit:
-            ctx.known.append("%s (%s)" % (hit[0], key))
-        else:
+        if True:
             path = vlib.write_replay(ctx, {"property": ctx.prop, "kind": "variant-does-not-compile",
                                            "base": "v_%s__base (compiles, in the catalogue)" % name,
                                            "variant": variant, "probe": binname,
